@@ -108,7 +108,7 @@ func cmdCheck(args []string) int {
 			ts := time.Now()
 			of := filepath.Join(outDir, fmt.Sprintf("%s.%s.json", j.key(), *tier))
 			os.Remove(of)
-			a := []string{"run", "-dir", j.Dir, "-harness", j.Harness, "-entry", j.Entry, "-out", of}
+			a := []string{"run", "-dir", j.Dir, "-harness", j.Harness, "-entry", j.Entry, "-out", of, "-prop", prop.ID}
 			if j.Unroll > 0 {
 				a = append(a, "-unroll", strconv.Itoa(j.Unroll))
 			}
